@@ -196,6 +196,11 @@ pub struct Workload {
     pub faults: Vec<Fault>,
     /// capacity used for the hashing queue (16 = shipped constant).
     pub hashq_cap: usize,
+    /// reads at which the source first tries to hand over more than a block (its "native chunk") and,
+    /// when the `Fill` refuses that, falls back to a legal block - a legal delivery as far as the
+    /// accepted fills are concerned.
+    #[serde(default, skip_serializing_if = "Vec::is_empty")]
+    pub probe_reads: Vec<usize>,
     /// (C10, multi-thread slice) a call made on the same simulated main thread before this one.
     #[serde(default, skip_serializing_if = "Option::is_none")]
     pub pre: Option<Box<PreCall>>,
@@ -422,6 +427,7 @@ pub fn gen(purpose: Purpose, tier: Tier, seed: u64, index: u64) -> Workload {
         read_seed: r.next_u64(),
         faults: vec![],
         hashq_cap: *r.pick(&[16usize, 16, 1, 2, 4]),
+        probe_reads: vec![],
         pre: None,
     };
     // A small Rice-parameter cap on loud wide samples makes the library build
@@ -511,6 +517,15 @@ pub fn gen(purpose: Purpose, tier: Tier, seed: u64, index: u64) -> Workload {
             if r.chance(0.6) {
                 w.cfg.use_lpc = false;
             }
+            // a source that probes with an oversize chunk at some reads and falls back when refused
+            if r.chance(0.08) {
+                let nreads = w.plan_reads().len();
+                for k in 0..nreads {
+                    if r.chance(0.4) {
+                        w.probe_reads.push(k);
+                    }
+                }
+            }
         }
         Purpose::Faults => {
             let nreads = w.plan_reads().len();
@@ -545,7 +560,20 @@ pub fn gen(purpose: Purpose, tier: Tier, seed: u64, index: u64) -> Workload {
                     Fault::WrongBps { k, bps }
                 }
             };
-            w.faults.push(f);
+            // sometimes a second bad block right after (or at) the first one: several failing frames
+            // in flight at the same time
+            if matches!(f, Fault::OutOfRange { .. }) && nreads > 1 && r.chance(0.35) {
+                let k2 = (k + r.below(2)).min(nreads - 1);
+                let f2 = gen_out_of_range(&mut r, &w, k2);
+                w.faults.push(f);
+                w.faults.push(f2);
+                if r.chance(0.4) && k2 + 1 < nreads {
+                    let f3 = gen_out_of_range(&mut r, &w, k2 + 1);
+                    w.faults.push(f3);
+                }
+            } else {
+                w.faults.push(f);
+            }
         }
     }
     w
@@ -668,6 +696,7 @@ pub fn fresh_small(r: &mut Rng) -> Workload {
         read_seed: r.next_u64(),
         faults: vec![],
         hashq_cap: 16,
+        probe_reads: vec![],
         pre: None,
     };
     if w.nfull == 0 && w.residue == 0 && r.chance(0.7) {
